@@ -8,6 +8,7 @@
     serializes the path as the Go code does and then zeroes bytes of that
     serialization at the offsets the Go code computes from the path meta header. *)
 From Coq Require Import List NArith Bool Arith.
+From Coq Require Strings.Byte.
 From Scion Require Import Lib.Check Lib.Bytes.
 Import ListNotations.
 Local Open Scope N_scope.
@@ -92,6 +93,12 @@ Record pkt := mkPkt {
   p_pld : bytes }.     (* upper-layer packet *)
 
 Definition b2n (b : bool) : N := if b then 1 else 0.
+
+(** byte strings of the generated cases are written with the constructors of
+    [Coq.Init.Byte.byte] ([x00] .. [xff]): they parse several times faster than numerals *)
+Definition bs (l : list Coq.Init.Byte.byte) : bytes := map Coq.Strings.Byte.to_N l.
+(** numbers above 16 bits are written as their big-endian bytes for the same reason *)
+Definition nb (l : list Coq.Init.Byte.byte) : N := unbe (bs l).
 
 (** ------------------------------------------------------------------
     Lengths (slayers.AddrType.Length, scion.Base.Len, epic/onehop/empty Len). *)
@@ -267,7 +274,7 @@ Definition path_code (p : path) : N :=
 
 Definition wf_pktb (p : pkt) : bool :=
   (p_version p <? 16) && (p_tc p <? 256) && (p_flow p <? 1048576)
-  && (p_path_type p =? path_code (p_path p))
+  && (p_path_type p <? 256)
   && (p_dst_type p <? 16) && (p_src_type p <? 16)
   && (p_dst_ia p <? 18446744073709551616) && (p_src_ia p <? 18446744073709551616)
   && (N.of_nat (length (p_dst_host p)) =? addr_len (p_dst_type p)) && wf_bytesb (p_dst_host p)
@@ -278,6 +285,15 @@ Definition wf_pktb (p : pkt) : bool :=
   && (hdr_len p <=? 1020).
 
 Definition wf_pkt (p : pkt) : Prop := wf_pktb p = true.
+
+(** PathType (a field of slayers.SCION) and the kind of the path object are independent in the
+    Go struct.  Two packets are [kind_consistent] when equal PathType fields come with path
+    objects of the same kind: true whenever PathType names the path present in both packets
+    (every decoded packet), and also for a change of the PathType field alone. *)
+Definition kind_consistentb (p p' : pkt) : bool :=
+  negb (p_path_type p =? p_path_type p') || (path_code (p_path p) =? path_code (p_path p')).
+Definition kind_consistent (p p' : pkt) : Prop :=
+  p_path_type p = p_path_type p' -> path_code (p_path p) = path_code (p_path p').
 
 (** ------------------------------------------------------------------
     "Equal in every covered field", as a decision procedure.  [tcrel] says when two
@@ -325,6 +341,47 @@ Definition pkt_covb (tcrel : N -> N -> bool) (k : spi_kind) (p p' : pkt) : bool 
   && (p_alg p =? p_alg p') && (p_ts p =? p_ts p') && (p_l4 p =? p_l4 p')
   && bytes_eqb (p_pld p) (p_pld p').
 
+(** The same relation as propositions (the form used in the statements of Props/C21.v;
+    Proofs/Spao.v shows [pkt_covb] decides it).  Not mentioned, hence free to differ:
+    CurrINF, CurrHF, every SegID, every router-alert flag, the whole second hop field of a
+    one-hop path, NextHdr, HdrLen, PayloadLen, the extension headers, and the parts of the
+    address header that the SPI kind leaves out. *)
+Definition info_cov (i i' : info) : Prop :=
+  i_rsv i = i_rsv i' /\ i_peer i = i_peer i' /\ i_consdir i = i_consdir i' /\
+  i_rsv1 i = i_rsv1 i' /\ i_ts i = i_ts i'.
+
+Definition hop_cov (h h' : hop) : Prop :=
+  h_exp h = h_exp h' /\ h_in h = h_in h' /\ h_eg h = h_eg h' /\ h_mac h = h_mac h'.
+
+Definition scion_cov m (is : list info) (hs : list hop) m' is' hs' : Prop :=
+  m_seg0 m = m_seg0 m' /\ m_seg1 m = m_seg1 m' /\ m_seg2 m = m_seg2 m' /\
+  Forall2 info_cov is is' /\ Forall2 hop_cov hs hs'.
+
+Definition path_cov (p p' : path) : Prop :=
+  match p, p' with
+  | PEmpty, PEmpty => True
+  | PScion m is hs, PScion m' is' hs' => scion_cov m is hs m' is' hs'
+  | POneHop i h1 _, POneHop i' h1' _ => info_cov i i' /\ hop_cov h1 h1'
+  | PEpic ts ctr ph lh m is hs, PEpic ts' ctr' ph' lh' m' is' hs' =>
+    ts = ts' /\ ctr = ctr' /\ ph = ph' /\ lh = lh' /\ scion_cov m is hs m' is' hs'
+  | _, _ => False
+  end.
+
+(** equal DSCP bits (the six upper bits of the traffic class) *)
+Definition dscp_eq (a b : N) : Prop := a / 4 = b / 4.
+(** equal under the code's mask 0x3f *)
+Definition mask3f_eq (a b : N) : Prop := N.land a 63 = N.land b 63.
+
+Definition pkt_cov (tcrel : N -> N -> Prop) (k : spi_kind) (p p' : pkt) : Prop :=
+  p_version p = p_version p' /\ tcrel (p_tc p) (p_tc p') /\ p_flow p = p_flow p' /\
+  p_path_type p = p_path_type p' /\
+  p_dst_type p = p_dst_type p' /\ p_src_type p = p_src_type p' /\
+  (incl_ia k = true -> p_dst_ia p = p_dst_ia p' /\ p_src_ia p = p_src_ia p') /\
+  (incl_dst k = true -> p_dst_host p = p_dst_host p') /\
+  (incl_src k = true -> p_src_host p = p_src_host p') /\
+  path_cov (p_path p) (p_path p') /\
+  p_alg p = p_alg p' /\ p_ts p = p_ts p' /\ p_l4 p = p_l4 p' /\ p_pld p = p_pld p'.
+
 (** ------------------------------------------------------------------
     Correspondence cases: a pair of packets under one SPI, with what the implementation
     produced for each (serializeAuthenticatedData bytes, None = error) and how the two
@@ -338,7 +395,7 @@ Inductive case :=
 (** the property on a pair, evaluated on the implementation's observations:
     equal in all covered fields (specification's notion) <-> equal MAC input and equal tag *)
 Definition pair_oracle (k : spi_kind) (p p' : pkt) (r r' : option bytes) (tags_eq : bool) : bool :=
-  if wf_pktb p && wf_pktb p' then
+  if wf_pktb p && wf_pktb p' && kind_consistentb p p' then
     match r, r' with
     | Some h, Some h' =>
       let ieq := bytes_eqb (h ++ p_pld p) (h' ++ p_pld p') in
